@@ -65,6 +65,9 @@ class ATerm(AObj):
         return ATerm(('call', ('attr', self.t, 'keys')))
 
 
+_BUILTIN_SEQUENCES = {'list', 'tuple', 'str', 'bytes', 'bytearray', 'range', 'memoryview'}
+
+
 def _t(v):
     if isinstance(v, ATerm):
         return v.t
@@ -162,10 +165,23 @@ def run(ctx):
     def ih(obj, cls):
         if isinstance(obj, ATerm):
             nm = repr(cls)
-            if 'Sequence' in nm:
+            if 'Sequence' in nm and not isinstance(cls, (tuple, list)):
                 return cur['seq']
-            if 'Collection' in nm:
+            if 'Collection' in nm and not isinstance(cls, (tuple, list)):
                 return True
+            # any other class test on the checked object (e.g. a concrete builtin type): the abstract
+            # object is only known to be a Collection / a Sequence, so both outcomes are explored
+            parts = list(cls) if isinstance(cls, (tuple, list)) else [cls]
+            names = [getattr(c, 'name', repr(c)).split('.')[-1] for c in parts]
+            if any(n_ == 'Sequence' for n_ in names) and cur['seq']:
+                return True
+            rest = [n_ for n_ in names if n_ not in ('Sequence', 'Collection')]
+            if any(n_ == 'Collection' for n_ in names):
+                return True
+            cur['asked'] = ', '.join(rest)
+            # builtin sequence types are Sequences: "is a list" and "is not a Sequence" cannot both hold
+            cur['infeasible'] = cur['other'] and not cur['seq'] and all(n_ in _BUILTIN_SEQUENCES for n_ in rest)
+            return cur['other']
         return prev_i(obj, cls) if prev_i else None
     F.builtin_hook, F.isinstance_hook = bh, ih
     try:
@@ -186,11 +202,14 @@ def run(ctx):
             ctx.require(isinstance(fn, FuncVal), f'logic object of {sign_name(s)} has no _get_cause_enumerator_item')
             for is_random in (True, False):
                 for seq in ((True, False) if fam == 'quasi' else (True,)):
-                    cur['seq'] = seq
+                  for other in (True, False):
+                    cur['seq'], cur['other'], cur['asked'], cur['infeasible'] = seq, other, None, False
                     try:
                         out = _call_function(F, fn, [ACause(AConf(is_random=is_random), seq)], {}, 1)
                     except (_Abort, _Raise) as ex:
                         ctx.require(False, f'cannot interpret {fn.qual}: {ex}')
+                    if (cur['asked'] is None and not other) or cur['infeasible']:
+                        continue    # no further class test was made (second exploration identical) / impossible object
                     item = out[1].t if isinstance(out, tuple) and len(out) == 2 and isinstance(out[1], ATerm) else None
                     if fam in ('sequence',) or (fam == 'quasi' and seq):
                         want = rand if is_random else zero
@@ -198,11 +217,13 @@ def run(ctx):
                         want = first
                     else:
                         want = None
-                    ctx.ob('C03.R3', f'resample:{lg.cls.name}:is_random={is_random}:sequence={seq}',
+                    ctx.ob('C03.R3', f'resample:{lg.cls.name}:is_random={is_random}:sequence={seq}' +
+                           (f':{cur["asked"]}={other}' if cur['asked'] else ''),
                            'beartype/_check/cls/logic/logcls.py:0',
                            f'{lg.cls.name} ({fam}) re-samples the item the generated code tested',
                            want is not None and item == want,
-                           f'explanation path looks at {show(item) if item else out!r}, generated code at {show(want) if want else "?"}')
+                           f'explanation path looks at {show(item) if item else out!r}, generated code at {show(want) if want else "?"}'
+                           + (f' (when isinstance(object, {cur["asked"]}) is {other})' if cur['asked'] else ''))
     finally:
         F.builtin_hook, F.isinstance_hook = prev_b, prev_i
     # mapping: next(iter(pith.items())) under O1
@@ -328,31 +349,33 @@ def _violation_selection(ctx, G, F):
     from sa.wrapcheck import analyse
     C = G.cls
     n = 0
-    for pw in (False, True):
-        for rw in (False, True):
-            conf = AConf(_is_violation_param_warn=pw, _is_violation_return_warn=rw, _is_violation_door_warn=False)
-            f = AFunc('h', (), ('x',), None, ('k',), None, 'sync', {'x': C('X'), 'k': C('K'), 'return': C('R')})
-            r = W.run(f, conf)
-            facts = analyse(r.code, N) if r.code else None
-            ctx.require(facts is not None and facts.ok, f'no wrapper generated for the violation-handler probe: {r.raised}')
-            for s in facts.sites:
-                n += 1
-                warn = pw if s.pith_name != 'return' else rw
-                h = s.handler
-                if warn:
-                    ok = isinstance(h, ast.Expr) and isinstance(h.value, ast.Call) and dotted(h.value.func) == N['WARN'] \
-                        and [norm(a) for a in h.value.args] == [f'str({N["VIOLATION"]})', f'type({N["VIOLATION"]})']
-                else:
-                    ok = isinstance(h, ast.Raise) and dotted(h.exc) == N['VIOLATION']
-                ctx.ob('C03.R4', f'handler:{s.pith_name}:param_warn={pw}:return_warn={rw}',
-                       'beartype/_check/checkmake.py:0',
-                       f'{"warn(str(V), type(V))" if warn else "raise V"} follows the violation of a '
-                       f'{"return" if s.pith_name == "return" else "parameter"}', ok,
-                       f'handler is `{norm(h)[:100] if h is not None else None}`')
-                gv = r.scope.get(N['GET_VIOLATION'])
-                ctx.ob('C03.R4', f'violation-factory:{s.pith_name}:{pw}:{rw}',
-                       'beartype/_check/checkmake.py:0', 'the violation comes from get_func_pith_violation',
-                       isinstance(gv, FuncVal) and gv.qualname == 'get_func_pith_violation', repr(gv))
+    for pw, rw in ((False, False), (False, True), (True, False), (True, True)):
+        for dw in (False, True):
+            conf = AConf(_is_violation_param_warn=pw, _is_violation_return_warn=rw, _is_violation_door_warn=dw)
+            from sa.wrapgen import NORETURN
+            for ret_tag, ret_hint in (('', C('R')), (':noreturn', NORETURN)):
+                f = AFunc('h', (), ('x',), None, ('k',), None, 'sync', {'x': C('X'), 'k': C('K'), 'return': ret_hint})
+                r = W.run(f, conf)
+                facts = analyse(r.code, N) if r.code else None
+                ctx.require(facts is not None and facts.ok, f'no wrapper generated for the violation-handler probe: {r.raised}')
+                for s in facts.sites:
+                    n += 1
+                    warn = pw if s.pith_name != 'return' else rw
+                    h = s.handler
+                    if warn:
+                        ok = isinstance(h, ast.Expr) and isinstance(h.value, ast.Call) and dotted(h.value.func) == N['WARN'] \
+                            and [norm(a) for a in h.value.args] == [f'str({N["VIOLATION"]})', f'type({N["VIOLATION"]})']
+                    else:
+                        ok = isinstance(h, ast.Raise) and dotted(h.exc) == N['VIOLATION']
+                    ctx.ob('C03.R4', f'handler:{s.pith_name}{ret_tag if s.pith_name == "return" else ""}:param_warn={pw}:return_warn={rw}:door_warn={dw}',
+                           'beartype/_check/checkmake.py:0',
+                           f'{"warn(str(V), type(V))" if warn else "raise V"} follows the violation of a '
+                           f'{"return" if s.pith_name == "return" else "parameter"}', ok,
+                           f'handler is `{norm(h)[:100] if h is not None else None}`')
+                    gv = r.scope.get(N['GET_VIOLATION'])
+                    ctx.ob('C03.R4', f'violation-factory:{s.pith_name}{ret_tag if s.pith_name == "return" else ""}:{pw}:{rw}:{dw}',
+                           'beartype/_check/checkmake.py:0', 'the violation comes from get_func_pith_violation',
+                           isinstance(gv, FuncVal) and gv.qualname == 'get_func_pith_violation', repr(gv))
     # (c) door route
     mk = F.const('beartype._check.checkmake', 'make_code_raiser_hint_object_check')
     from sa.gen import ACall, ASane
